@@ -1484,7 +1484,7 @@ private:
         {
             InnerNode* innernode = static_cast<InnerNode*>(n);
 
-            for (unsigned short slot = 0; slot < innernode->slotuse + 1; ++slot)
+            for (unsigned int slot = 0; slot < innernode->slotuse + 1u; ++slot)
             {
                 clear_recursive(innernode->childid[slot]);
                 free_node(innernode->childid[slot]);
@@ -2046,7 +2046,7 @@ private:
         std::copy(inner->slotkey, inner->slotkey + inner->slotuse,
                   newinner->slotkey);
 
-        for (unsigned short slot = 0; slot <= inner->slotuse; ++slot)
+        for (unsigned int slot = 0; slot <= inner->slotuse; ++slot)
             newinner->childid[slot] = copy_recursive(inner->childid[slot]);
 
         return newinner;
@@ -3792,7 +3792,7 @@ private:
 
             if (recursive)
             {
-                for (unsigned short slot = 0; slot < innernode->slotuse + 1;
+                for (unsigned int slot = 0; slot < innernode->slotuse + 1u;
                      ++slot)
                 {
                     print_node(os, innernode->childid[slot], depth + 1,
@@ -3868,7 +3868,7 @@ private:
                     key_lessequal(inner->key(slot), inner->key(slot + 1)));
             }
 
-            for (unsigned short slot = 0; slot <= inner->slotuse; ++slot)
+            for (unsigned int slot = 0; slot <= inner->slotuse; ++slot)
             {
                 const node* subnode = inner->childid[slot];
                 key_type subminkey = key_type();
